@@ -294,12 +294,15 @@ func (s *Service) updateConfig(ctx context.Context, instance *Instance, plugin s
 			"this may lead to unexpected behavior and configuration issues.", instance.Plugin, plugin)
 	}
 
+	oldPlugin, oldConfig, oldUpdatedAt := instance.Plugin, instance.Config, instance.UpdatedAt
 	instance.Plugin = plugin
 	instance.Config = cfg
 	instance.UpdatedAt = time.Now()
 
 	// persist instance
 	if err := s.store.Set(ctx, instance.ID, instance); err != nil {
+		// the change did not reach the store: take it back in memory too
+		instance.Plugin, instance.Config, instance.UpdatedAt = oldPlugin, oldConfig, oldUpdatedAt
 		return nil, err
 	}
 
